@@ -928,6 +928,24 @@ def rule_comment_safe_writes(cm, rep, rid):
             rep.ok(rid, key, 'comment hole without line breaks', h.func.loc())
 
 
+def _returns_only_comment_text(cm, f):
+    """every value the function can return (value flow) is text made of comment lines and blank lines"""
+    vals = cm.flow.pts.get(('R', f.qname), {})
+    if not vals:
+        return False
+    L = Lex(cm)
+    target = lx.dfa(r'(?:(?:#[^\n\r]*)?\n)*')
+    for v in vals:
+        if v[0] != 'str':
+            return False
+        try:
+            if L.dfa(coarse(v[1])).subset_of(target) is not None:
+                return False
+        except (ValueError, KeyError, RecursionError):
+            return False
+    return True
+
+
 def rule_flags_only_comments(cm, rep, rid):
     rep.rule(rid, 'statements that depend on a debug flag only call a debug writer, and the alternatives of the header template '
                   'differ only in comment and blank lines')
@@ -1009,6 +1027,11 @@ def rule_flags_only_comments(cm, rep, rid):
                 parent_body = getattr(getattr(s, '_parent', None), 'body', [])
                 guard = (len(s.body) == 1 and isinstance(s.body[0], ast.Return) and not s.orelse and s in f.node.body and
                          (s.body[0].value is None or (isinstance(s.body[0].value, ast.Constant) and s.body[0].value.value is None)))
+                comment_text = _returns_only_comment_text(cm, f)
+                if comment_text and all(isinstance(b, (ast.Return, ast.Assign)) for b in s.body + s.orelse):
+                    # a function whose every result is comment/blank lines: the flag chooses between comments
+                    rep.ok(rid, key, 'the function returns comment or blank lines only, whatever the flag', f.loc(s))
+                    continue
                 if guard:
                     # "if not flag: return" - everything after it in the function depends on the flag
                     region = f.node.body[f.node.body.index(s) + 1:]
@@ -1117,16 +1140,28 @@ def rule_tracer_transparent(cm, rep, rid):
         rep.ok(rid, 'visitor', 'no attribute hook', vis.loc(), nontrivial=False)
         return
     inner = list(ga.nested.values())
+    if not inner:
+        # the wrapper is built by a helper method that the hook hands the attribute to
+        for x in own_nodes_ordered(ga.node):
+            if isinstance(x, ast.Call) and is_self_attr(x.func):
+                h = cm.repo.lookup_method(vis, x.func.attr)
+                if h is not None and h.nested:
+                    inner += list(h.nested.values())
     if len(inner) != 1:
         raise AnalysisError('unexpected shape of the tracing wrapper')
     w = inner[0]
+    # the callable being wrapped: a local or parameter of the enclosing function that the wrapper calls with (*args, **kwargs)
+    enclosing = w.parent
+    outer_names = set(enclosing.all_params) | {t.id for s_ in own_nodes(enclosing.node) if isinstance(s_, ast.Assign) for t in s_.targets if isinstance(t, ast.Name)}
+    wrapped = {x.func.id for x in own_nodes(w.node) if isinstance(x, ast.Call) and isinstance(x.func, ast.Name) and x.func.id in outer_names and
+               any(isinstance(a_, ast.Starred) for a_ in x.args)} or {'attr'}
     key = w.qname
     a = w.node.args
     protected = {x.arg for x in a.args} | ({a.vararg.arg} if a.vararg else set()) | ({a.kwarg.arg} if a.kwarg else set())
     state = dict(res=None, bad=None, calls=0, returned=False)
 
     def is_wrapped_call(v):
-        if not (isinstance(v, ast.Call) and is_name(v.func, 'attr')):
+        if not (isinstance(v, ast.Call) and is_name(v.func) and v.func.id in wrapped):
             return False
         star = [x for x in v.args if isinstance(x, ast.Starred)]
         kw = [k for k in v.keywords if k.arg is None]
@@ -1134,7 +1169,7 @@ def rule_tracer_transparent(cm, rep, rid):
 
     def walk(stmts):
         for s in stmts:
-            if isinstance(s, ast.Assign) and isinstance(s.value, ast.Call) and is_name(s.value.func, 'attr'):
+            if isinstance(s, ast.Assign) and isinstance(s.value, ast.Call) and is_name(s.value.func) and s.value.func.id in wrapped:
                 if is_wrapped_call(s.value) and len(s.targets) == 1 and isinstance(s.targets[0], ast.Name) and state['res'] is None:
                     state['res'] = s.targets[0].id
                     state['calls'] += 1
@@ -1145,7 +1180,7 @@ def rule_tracer_transparent(cm, rep, rid):
             elif isinstance(s, ast.AugAssign) and is_self_attr(s.target) and 'indent' in s.target.attr:
                 continue
             elif isinstance(s, ast.Assign) and all(isinstance(t, ast.Name) and t.id not in protected and t.id != state['res'] for t in s.targets) and \
-                    not any(isinstance(x, ast.Call) and is_name(x.func, 'attr') for x in ast.walk(s.value)):
+                    not any(isinstance(x, ast.Call) and is_name(x.func) and x.func.id in wrapped for x in ast.walk(s.value)):
                 continue                # a local used for the trace messages
             elif isinstance(s, ast.Return):
                 state['returned'] = True
@@ -1234,9 +1269,13 @@ def rule_variable_coverage(cm, rep, rid):
                   'a node with variables (flow analysis), so every variable the emitter can print is declared')
     fl = cm.flow
     n = 0
-    classes = [c for c in cm.repo.all_classes(('yp_prolog_visitor', 'yp_generator')) if 'variables' in c.methods and c.methods['variables'].is_property]
+    def _prop(c):
+        m = cm.repo.lookup_method(c, 'variables')       # own or inherited (a mixin / shared base class)
+        return m if m is not None and m.is_property else None
+    classes = [c for c in cm.repo.all_classes(('yp_prolog_visitor', 'yp_generator')) if _prop(c) is not None and
+               (c in cm.repo.instantiated() or 'variables' in c.methods)]
     def _always_empty(c):
-        rets = [x for x in own_nodes(c.methods['variables'].node) if isinstance(x, ast.Return)]
+        rets = [x for x in own_nodes(_prop(c).node) if isinstance(x, ast.Return)]
         return bool(rets) and all(isinstance(r.value, ast.List) and not r.value.elts for r in rets)
     has_vars = {c.qname for c in classes if not _always_empty(c)}
     for c in classes:
@@ -1248,7 +1287,7 @@ def rule_variable_coverage(cm, rep, rid):
                     for t in s.targets:
                         if is_self_attr(t):
                             flds.append(t.attr)
-        prop = c.methods['variables']
+        prop = _prop(c)
         src = norm(prop.node)
         for fld in flds:
             vals = fl.field(c.qname, fld)
@@ -1263,7 +1302,7 @@ def rule_variable_coverage(cm, rep, rid):
             else:
                 rep.violation(rid, key, 'variables occurring in %s.%s are not collected: they are used in the generated code without '
                               'being declared (NameError at run time) ' % (c.name, fld), prop.loc())
-    rep.minimum('child fields with variables', n, 10)
+    rep.minimum('child fields with variables', n, 6)
 
 
 def rule_unquote_delimiters(cm, rep, rid):
